@@ -856,46 +856,134 @@ def _reassigned_between(fn, a, b, root):
     return path_search(fn, ae, lambda e: e in others, lambda e: e == be) is not None
 
 
+def _value_sink(fn, nid):
+    """Where the value of expression nid goes: ('var', decl id, name) when it is assigned to / initialises a variable, 'returned'
+    when it is the function's return value, else None (moves, wrappers and elidable copies are looked through)."""
+    pm = fn.parent_map()
+    x = nid
+    hops = 0
+    while x in pm and hops < 10:
+        p = pm[x]
+        n = fn.nodes[p]
+        hops += 1
+        lhs, rhs = _assign_from(fn, n)
+        if lhs is not None and rhs is not None and x in fn.subtree(rhs):
+            return lhs if lhs[0] == 'var' else None
+        k = n.get('k')
+        if k == 'decl':
+            for v in n['vars']:
+                if isinstance(v.get('init'), int) and x in fn.subtree(v['init']):
+                    return ('var', v['d'], v['name'])
+            return None
+        if k == 'return':
+            return 'returned'
+        if k in ('wrap', 'icast', 'initlist') or (k == 'call' and n.get('q') in ('std::move', 'std::forward')) or \
+                (k == 'construct' and len(n.get('args', [])) == 1):
+            x = p
+            continue
+        return None
+    return None
+
+
 def rule_wrapper_pop(fb, R):
+    """R5.  pop() and the private helpers of queue_wrapper it calls are read as one body (helper = inlined; a by-reference
+    out-parameter of the helper stands for the caller's argument)."""
     fns = [f for f in fb.fns(QW + '::pop') if f.has_cfg]
     if not fns:
         R.broken('%s::pop not found' % QW)
     for fn in fns:
         key = fn.q
-        takes = [n for n in fn.all_nodes() if n.get('k') == 'call' and n.get('rcls') == U.QUEUE and n['q'].rsplit('::', 1)[-1] in ('wait_and_pop', 'try_pop')]
-        gets = [n for n in fn.all_nodes() if _is_call(n, 'std::future::get')]
-        rets = [n for n in fn.all_nodes() if n.get('k') == 'return' and 'sub' in n]
-        ok = len(takes) == 1 and takes[0]['q'] == U.QUEUE + '::wait_and_pop' and len(gets) == 1 and bool(rets)
-        why = 'expected exactly one Queue::wait_and_pop and one future::get'
+        # scope: pop and the helpers of the same class instantiation it reaches, with the unique call site of each helper
+        scope = {id(fn): (fn, None, None)}          # id -> (Fn, caller Fn, call node)
+        work = [fn]
+        multi = False
+        while work:
+            f = work.pop()
+            for n in f.all_nodes():
+                if n.get('k') == 'call' and n.get('rcls') == QW and n.get('u') and n.get('rclsT') == fn.clsT:
+                    for g in fb.by_usr.get(n['u'], []):
+                        if g.has_cfg and g.name not in ('pop',):
+                            if id(g) in scope:
+                                multi = True
+                            else:
+                                scope[id(g)] = (g, f, n)
+                                work.append(g)
+        takes, gets = [], []
+        for (f, _c, _n) in scope.values():
+            for n in f.all_nodes():
+                if n.get('k') == 'call' and n.get('rcls') == U.QUEUE and n['q'].rsplit('::', 1)[-1] in ('wait_and_pop', 'try_pop'):
+                    takes.append((f, n))
+                elif _is_call(n, 'std::future::get'):
+                    gets.append((f, n))
+        ok = len(takes) == 1 and takes[0][1]['q'] == U.QUEUE + '::wait_and_pop' and len(gets) == 1 and not multi
+        why = 'expected exactly one Queue::wait_and_pop and one future::get (in pop() and its helpers)'
         if ok:
-            t, g = takes[0], gets[0]
-            fut = fn.root_var(t['args'][0]) if t.get('args') else None
-            ok = fut is not None and _recv_root(fn, g) == fut and fn.elem_dominates(_elem(fn, t['id']), _elem(fn, g['id']))
+            (tf, t), (gf, g) = takes[0], gets[0]
+            fut = tf.root_var(t['args'][0]) if t.get('args') else None
+            ok = tf is gf and fut is not None and _recv_root(gf, g) == fut and tf.elem_dominates(_elem(tf, t['id']), _elem(gf, g['id']))
             why = 'get() must be called on the future that wait_and_pop filled, after the pop'
-            inloop = any(fn.in_range(t['id'], l['b'], l['e']) for l in fn.loops)
-            if ok and inloop:
-                ok, why = False, 'the pop happens inside a loop (elements would be dropped)'
+            # neither the take nor the call chain leading to it may sit in a loop
+            f, n = tf, t
+            while ok and f is not None:
+                if any(f.in_range(n['id'], l['b'], l['e']) for l in f.loops):
+                    ok, why = False, 'the pop happens inside a loop (elements would be dropped)'
+                _f, caller, call = scope[id(f)]
+                f, n = caller, call
             if ok:
-                # value returned: the variable assigned from get()
-                pm = fn.parent_map()
-                x = g['id']
-                data = None
-                hops = 0
-                while x in pm and hops < 8:
-                    x = pm[x]
-                    hops += 1
-                    lhs, _rhs = _assign_from(fn, fn.nodes[x])
-                    if lhs is not None:
-                        data = lhs
-                        break
-                    if fn.nodes[x].get('k') in ('decl', 'return'):
-                        if fn.nodes[x]['k'] == 'decl':
-                            data = ('var', fn.nodes[x]['vars'][0]['d'], fn.nodes[x]['vars'][0]['name'])
-                        else:
-                            data = 'returned'
-                        break
-                ok = data == 'returned' or (data is not None and all(fn.root_var(r['sub']) == data for r in rets))
+                # follow the value of get() to the value pop() returns
                 why = 'the value returned must be the one obtained from get() of the popped future'
+                f, node = gf, g['id']
+                steps = 0
+                ok = False
+                while steps < 6:
+                    steps += 1
+                    sink = _value_sink(f, node)
+                    _f, caller, call = scope[id(f)]
+                    if sink == 'returned':
+                        if caller is None:
+                            ok = True
+                            break
+                        f, node = caller, call['id']
+                        continue
+                    if sink is None:
+                        break
+                    pidx = [i for i, p_ in enumerate(f.params) if p_['d'] == sink[1]]
+                    if pidx:
+                        # out-parameter: non-const reference; continue with the caller's argument
+                        pt = f.params[pidx[0]]['tC'].rstrip()
+                        if caller is None or not pt.endswith('&') or pt.endswith('&&') or pt.startswith('const '):
+                            break
+                        args = [a for a in call.get('args', [])]
+                        if pidx[0] >= len(args) or args[pidx[0]] is None:
+                            break
+                        arg = caller.root_var(args[pidx[0]])
+                        if arg is None or arg[0] != 'var':
+                            break
+                        f = caller
+                        sink = arg
+                    rets = [n for n in f.all_nodes() if n.get('k') == 'return' and 'sub' in n]
+                    if not rets or not all(f.root_var(r['sub']) == sink for r in rets):
+                        # the variable may itself be an out-parameter one level further up
+                        if any(p_['d'] == sink[1] for p_ in f.params) and scope[id(f)][1] is not None:
+                            node = None
+                            pidx = [i for i, p_ in enumerate(f.params) if p_['d'] == sink[1]]
+                            _f2, caller2, call2 = scope[id(f)]
+                            args = call2.get('args', [])
+                            arg = caller2.root_var(args[pidx[0]]) if pidx[0] < len(args) and args[pidx[0]] is not None else None
+                            if arg is None or arg[0] != 'var':
+                                break
+                            f, sink = caller2, arg
+                            rets = [n for n in f.all_nodes() if n.get('k') == 'return' and 'sub' in n]
+                            if not rets or not all(f.root_var(r['sub']) == sink for r in rets):
+                                break
+                        else:
+                            break
+                    if scope[id(f)][1] is None:
+                        ok = True
+                        break
+                    # a helper that returns the variable: continue with its call expression in the caller
+                    _f3, caller3, call3 = scope[id(f)]
+                    f, node = caller3, call3['id']
         R.check(ok, 'R5-wrapper-pop-returns-future-value', key, fn.site, 'queue_wrapper::pop: %s' % why)
 
 
